@@ -37,6 +37,12 @@ pub fn me_any() -> BoxedStrategy<u64> {
         1 => (prop_oneof![Just(3u32), Just(4u32), Just(0u32), Just(5u32), Just(6u32), Just(7u32)], gen::fill64()).prop_map(|(sub, fill)| { let mut m = bits::Me(bits::me_raw(19, fill)); m.set(6, 8, sub as u64); m.0 }),
         1 => (20u32..=22, 0u32..4, 0u32..4096, any::<bool>(), base_pos()).prop_map(|(tc, ss, ac, odd, (la, lo))| airpos_me(tc, ss, ac, odd, la, lo)),
         1 => (0u32..8, 0u32..8, gen::fill64()).prop_map(|(sub, ver, fill)| bits::me_opstatus(sub, ver, fill)),
+        // aircraft status with an embedded Mode A code (TC28 subtype 1, ME bits 12-24)
+        1 => (prop_oneof![Just((7u32, 5u32, 0u32, 0u32)), Just((7, 6, 0, 0)), Just((7, 7, 0, 0)), (0u32..8, 0u32..8, 0u32..8, 0u32..8)], 0u32..8, gen::fill64()).prop_map(|((a, b, c, d), emerg, fill)| {
+            let mut m = bits::Me(fill & ((1u64 << 56) - 1));
+            m.set(1, 5, 28); m.set(6, 8, 1); m.set(9, 11, emerg as u64); m.set(12, 24, bits::id13_from_squawk(a, b, c, d, 0) as u64);
+            m.0
+        }),
         1 => (prop_oneof![Just(0u32), Just(23u32), Just(24u32), Just(27u32), Just(28u32), Just(29u32), Just(30u32)], gen::fill64()).prop_map(|(tc, fill)| bits::me_raw(tc, fill)),
     ]
     .boxed()
